@@ -6,6 +6,8 @@ Case kinds
   text   : _resolve_expression_indexes(s) on raw (mostly malformed) strings         K: idem (exhaustive over short strings)
   ns     : eval(<name>) with locals= / builtins= : namespace precedence, purity     K: idem (eval_M with tag values)
   sem    : Python's reading of an integer-literal subscript (validates index_sem)   K: idem
+  hist   : a history in one process — several containers, eval -> reindex / copy -> the same eval, evals with locals, then a
+           name bound elsewhere but undefined here: every eval is judged as if it were the first (the model has no memory)   K: idem
   int    : CPython's int(s) and int(s.strip()) on Latin-1 strings (validates parse_int_raw / parse_pyint, incl. the
            hard-coded int() whitespace class: every one of the 256 codes as left/right padding)              K: idem
 """
@@ -259,7 +261,11 @@ def _locals_of(case):
 
 
 def impl_expr(case):
-    c = _container(case)
+    return _eval_obs(_container(case), case)
+
+
+def _eval_obs(c, case):
+    """one eval() on container c (case: expr, span spec, optional locals / probe), with the purity observations"""
     expr = case['expr']
     loc = _locals_of(case)
     loc_before = None if loc is None else {k: (id(v), v.tobytes() if hasattr(v, 'tobytes') else v) for k, v in loc.items()}
@@ -297,6 +303,33 @@ def impl_expr(case):
     obs['container_same'] = _snapshot(c) == before
     obs['table_same'] = _table_snapshot() == tb and _table_ok()
     return obs
+
+
+def _dump_vars(c):
+    return [[k, [lib.fhex(x) for x in c.__dict__['_' + k]]] for k in c.__dict__['index']]
+
+
+def impl_hist(case):
+    """a history: several containers in one process; steps new / eval / reindex / copy.  Every structural step reports the series
+    of the container it creates (they are the INPUT of the later evals: what reindex does is property C12's business)."""
+    cs, spans, out = {}, {}, []
+    for st in case['steps']:
+        op = st['op']
+        if op == 'eval':
+            out.append(_eval_obs(cs[st['c']], dict(st, span=spans[st['c']])))
+            continue
+        try:
+            if op == 'new':
+                cs[st['to']], spans[st['to']] = _container({'span': st['span'], 'vars': st['vars']}), st['span']
+            elif op == 'copy':
+                cs[st['to']], spans[st['to']] = cs[st['c']].copy(), spans[st['c']]
+            else:
+                cs[st['to']], spans[st['to']] = cs[st['c']].reindex(_span(st['span'])), st['span']
+            out.append({'vars': _dump_vars(cs[st['to']])})
+        except Exception as e:                     # a structural step failed: report, stop
+            out.append({'failed': type(e).__name__})
+            break
+    return {'steps': out}
 
 
 _TEXT_C = {}
@@ -397,7 +430,7 @@ def impl_int(case):
 
 
 def impl(case):
-    return {'helper': impl_helper, 'expr': impl_expr, 'text': impl_text, 'ns': impl_ns, 'sem': impl_sem, 'int': impl_int}[case['kind']](case)
+    return {'helper': impl_helper, 'expr': impl_expr, 'text': impl_text, 'ns': impl_ns, 'sem': impl_sem, 'int': impl_int, 'hist': impl_hist}[case['kind']](case)
 
 
 # =========================================================================== generators
@@ -716,7 +749,8 @@ def gen_ast(rng, span, names, depth, style, opts):
         if rng.random() < 0.3:
             node = ('sub', node, gen_bracket(rng, span, n, style))
         return node
-    return ('raw', rng.choice(['[1.5, 2.5][0]', '[0.5][0]', '(2.0)', "('a' + 1)", '(1 // 0)', '(2.0).nope', '(1.5 % 0)', 'X_undefined.real', '(lambda: q_undefined)()']))
+    return ('raw', rng.choice(['[1.5, 2.5][0]', '[0.5][0]', '(2.0)', "('a' + 1)", '(1 // 0)', '(2.0).nope', '(1.5 % 0)', 'X_undefined.real', '(lambda: q_undefined)()',
+                               "('`' == '`')", "{'[0]': 2.0}['[0]']", "{'a': 1.5, 'b': 2.5}['b']", '(0.5,)[0]']))
 
 
 def probe_labels(expr):
@@ -904,6 +938,93 @@ def gen_enum(rng, tier):
     return cases
 
 
+HIST_SPAN_KINDS = ['range', 'strlist', 'intlist', 'np_str', 'np_int', 'pd_str', 'pd_int']
+
+
+def _respan(rng, span):
+    """a new span for reindex(): the labels move (drop the first, rotate, reverse, add new ones) so that a label cached with its
+    old position would select another element"""
+    labs = list(span['labels'])
+    ints = all(isinstance(x, int) for x in labs)
+    how = rng.choice(['drop_first', 'prepend', 'rotate', 'reverse', 'drop_first', 'prepend'])
+    if span['type'] == 'range':
+        a = labs[0] + rng.choice([1, -1, 2, -2])
+        return {'kind': 'range', 'type': 'range', 'labels': list(range(a, a + len(labs)))}
+    new = (max(labs) + 1) if ints else 'n%d' % rng.randint(0, 99)
+    if how == 'drop_first' and len(labs) > 1:
+        labs = labs[1:] + [new]
+    elif how == 'prepend':
+        labs = [new] + labs
+    elif how == 'rotate' and len(labs) > 1:
+        labs = labs[1:] + labs[:1]
+    else:
+        labs = labs[::-1]
+    return {'kind': span['kind'], 'type': span['type'], 'labels': labs}
+
+
+def gen_hist(rng, tier):
+    """multi-step cases in ONE process: eval -> reindex / copy -> the same eval on the result; evals across several containers
+    and caller locals; then an eval using a name that is undefined in ITS container but was bound in an earlier eval elsewhere"""
+    cases = []
+    for _ in range(250 if tier == 'quick' else 5000):
+        steps, conts = [], {}                      # conts: cid -> (span spec, names)
+        pool_names = [['X', 'Y'], ['W', 'log'], ['Z', 'lagged'], ['V', 'x_1']]
+        rng.shuffle(pool_names)
+
+        def new_container(cid):
+            span = make_span(rng, rng.choice(HIST_SPAN_KINDS))
+            n = len(span['labels'])
+            names = pool_names[cid % len(pool_names)]
+            vars_ = [[nm, [lib.fhex(rng.choice([1.0, 2.0, 0.5, 3.0, 10.0, -1.0]) + float(j)) for j in range(n)]] for nm in names]
+            steps.append({'op': 'new', 'to': cid, 'span': span, 'vars': vars_})
+            conts[cid] = (span, names)
+
+        def an_eval(cid, ast=None, foreign=None, with_locals=False):
+            span, names = conts[cid]
+            if ast is None:
+                ast = gen_ast(rng, span, names, rng.randint(0, 2), rng.choice(['lab', 'lab', 'mix']), {})
+            if foreign is not None:
+                ast = ('bin', '+', ast, ('var', foreign))
+            st = {'op': 'eval', 'c': cid, 'ast': ast, 'expr': render(ast, None, 'expr', span)}
+            if with_locals:
+                n = len(span['labels'])
+                st['locals'] = [[rng.choice(['k_local', 'log', names[0], 'W']), 'arr', [lib.fhex(float(j + 7)) for j in range(n)]],
+                                [rng.choice(['lag', 'exp', 'f_local']), 'fn', rng.choice(['twice', 'first'])]]
+            steps.append(st)
+            return ast
+
+        new_container(0)
+        nxt = 1
+        for _ in range(rng.randint(3, 7)):
+            r = rng.random()
+            cid = rng.choice(sorted(conts))
+            if r < 0.3:                                            # eval, restructure, the SAME expression on the result
+                ast = an_eval(cid)
+                span, names = conts[cid]
+                if rng.random() < 0.7:
+                    nspan = _respan(rng, span)
+                    steps.append({'op': 'reindex', 'c': cid, 'to': nxt, 'span': nspan})
+                    conts[nxt] = (nspan, names)
+                else:
+                    steps.append({'op': 'copy', 'c': cid, 'to': nxt})
+                    conts[nxt] = (span, names)
+                an_eval(nxt, ast=ast)
+                an_eval(cid, ast=ast)
+                nxt += 1
+            elif r < 0.5 and nxt < 4:
+                new_container(nxt)
+                an_eval(nxt, with_locals=rng.random() < 0.5)
+                nxt += 1
+            elif r < 0.75:                                         # a name bound elsewhere (other container / earlier locals), undefined here
+                others = [nm for k, (_, nms) in conts.items() if k != cid for nm in nms if nm not in conts[cid][1]]
+                foreign = rng.choice(others + ['k_local', 'f_local', 'W', 'log_'])
+                an_eval(cid, foreign=foreign)
+            else:
+                an_eval(cid, with_locals=True)
+        cases.append({'kind': 'hist', 'steps': steps})
+    return cases
+
+
 def gen_int(rng, tier):
     out = []
     for c in range(256):
@@ -948,6 +1069,7 @@ def gen(rng, tier):
     cases += gen_ns(rng, tier)
     cases += gen_sem(rng, tier)
     cases += gen_int(rng, tier)
+    cases += gen_hist(rng, tier)
     cases += gen_text(rng, tier)
     n_expr = 2000 if tier == 'quick' else 150000
     for i in range(n_expr):
@@ -1175,6 +1297,39 @@ def oracle_ns(case, obs, fails):
             bad('C16|eval|namespace-precedence', 'eval(%r) with vars=%s locals=%s builtins=%s gave %s, expected %s' % (name, case['vars'], case['locals'], case['bi'], obs['out'], want))
 
 
+def _hist_pseudo(case, obs):
+    """the eval steps of a history as ordinary expr cases: [(step index, pseudo case, step observation)]; the series of each
+    container are those the implementation reported when the container was created"""
+    conts, out = {}, []
+    for j, (st, o) in enumerate(zip(case['steps'], obs['steps'])):
+        if 'failed' in o:
+            break
+        if st['op'] == 'new':
+            conts[st['to']] = (st['span'], o['vars'])
+        elif st['op'] == 'copy':
+            conts[st['to']] = (conts[st['c']][0], o['vars'])
+        elif st['op'] == 'reindex':
+            conts[st['to']] = (st['span'], o['vars'])
+        else:
+            span, vars_ = conts[st['c']]
+            out.append((j, {'kind': 'expr', 'span': span, 'vars': vars_, 'ast': st['ast'], 'expr': st['expr'], 'style': 'hist',
+                            'locals': st.get('locals')}, o))
+    return out
+
+
+def oracle_hist(case, obs, fails):
+    if any('failed' in o for o in obs['steps']):
+        j = [i for i, o in enumerate(obs['steps']) if 'failed' in o][0]
+        fails.append({'sig': 'C16|history|structural-step-failed', 'what': 'step %d (%s) raised %s' % (j, case['steps'][j]['op'], obs['steps'][j]['failed'])})
+        return
+    for j, pseudo, o in _hist_pseudo(case, obs):
+        sub = []
+        oracle_expr(pseudo, o, sub)
+        for f in sub:
+            f['what'] = 'step %d of a history (%s): %s' % (j, ' -> '.join(s['op'] for s in case['steps'][:j + 1]), f['what'])
+            fails.append(f)
+
+
 def oracle(case, obs):
     fails = []
     k = case['kind']
@@ -1184,6 +1339,8 @@ def oracle(case, obs):
         oracle_expr(case, obs, fails)
     elif k == 'ns':
         oracle_ns(case, obs, fails)
+    elif k == 'hist':
+        oracle_hist(case, obs, fails)
     elif k == 'text':
         # the one thing the statement says about raw text: an expression without a backtick is not rewritten by eval (checked in
         # expr cases); here only "a failed rewrite raises one of the documented classes"
@@ -1224,6 +1381,8 @@ def bucket(case, obs):
         return 'text/%s' % (t[1] if t[0] == 'raise' else ('changed' if t[1] != case['s'] else 'same'))
     if k == 'ns':
         return 'ns/%s' % obs['out'][0]
+    if k == 'hist':
+        return 'hist/%d-steps' % len(case['steps'])
     return k
 
 
@@ -1527,6 +1686,26 @@ def correspond(cases, obs, tag, tier):
                         ok = ok and o['bi_after'] is None
             if not ok:
                 bad.append(i)
+        # ---- histories: every eval step's rewriting is the model's on the container's CURRENT span (the model has no memory)
+        hidx, hlines, hwant = [], [], []
+        for i, (c, o) in enumerate(zip(cases, obs)):
+            if c['kind'] != 'hist':
+                continue
+            for j, pseudo, so in _hist_pseudo(c, o):
+                if _outside_model(pseudo):
+                    continue
+                t = so['text']
+                hidx.append(i)
+                hlines.append('T\t%s\t%s' % (_span_line(pseudo, so), _hex(pseudo['expr'])))
+                hwant.append(('R ' + _hex(t[1])) if t[0] == 'ret' else 'E ' + (t[1] if t[1] in ('ValueError', 'KeyError', 'AttributeError', 'IndexError', 'TypeError', 'NotImplementedError') else 'OtherError'))
+        if hlines:
+            p2 = subprocess.run([exe], input='\n'.join(hlines) + '\n', capture_output=True, text=True, timeout=3600)
+            out2 = p2.stdout.split('\n')
+            if p2.returncode != 0 or len(out2) < len(hlines):
+                return sorted(bad), errors + ['driver failed on history steps rc=%s' % p2.returncode]
+            for i, ol, w in zip(hidx, out2, hwant):
+                if ol != w:
+                    bad.append(i)
         # ---- cross-check of the extraction: a sample re-evaluated inside Coq by vm_compute
         sample = [i for i in idx if cases[i]['kind'] in ('expr', 'text') and cases[i]['span']['type'] != 'period'
                   and all(ord(ch) < 256 for ch in (cases[i].get('expr') or cases[i].get('s')))][::max(1, len(idx) // 120)][:150]
@@ -1595,6 +1774,11 @@ def shrink_candidates(case):
         if abs(case['p']) > 1:
             c = copy.deepcopy(case)
             c['p'] = case['p'] - (1 if case['p'] > 0 else -1)
+            yield c
+    elif case['kind'] == 'hist':
+        for cut in range(len(case['steps']) - 1, 1, -1):
+            c = copy.deepcopy(case)
+            c['steps'] = c['steps'][:cut]
             yield c
     elif case['kind'] == 'text':
         s = case['s']
